@@ -42,8 +42,9 @@ func dimsCmd(args []string) error {
 		}
 		b := concrete.Build(c, id%4)
 		for _, loader := range []string{fmtName, "auto"} {
-			o := obs.Run(loader, obs.NewSource(b.Data, -1, nil, obs.Full), false, false)
-			ev := cEvent{ID: id, Variant: id % 4, Fmt: fmtName, Loader: loader, File: c.FileRaw, Len: len(b.Data), Member: true}
+			shape := []string{"plain", "rich0", "rich5"}[id%3]
+			o := obs.Run(loader, obs.NewSource(b.Data, -1, nil, obs.Full).WithShape(shape), false, false)
+			ev := cEvent{ID: id, Variant: id % 4, Fmt: fmtName, Loader: loader, File: c.FileRaw, Len: len(b.Data), Member: true, Shape: shape}
 			ev.Obs = concrete.Project(c, id%4, &o)
 			js, _ := json.Marshal(ev)
 			w.Write(js)
